@@ -83,10 +83,19 @@ Proof. exact ws_closed_iff. Qed.
     started once and executed once (not at all when its document is invalid) *)
 Theorem C08_ws_query_one_result_one_complete : forall (p : proto) ls n id d,
   In (VStart n id d) (tr p ls) -> is_sublike d = false ->
-  owned n (tr p ls) = [SData id (result_class d n); SComplete id] /\
+  owned n (tr p ls) = [SData id (result_class (tr p ls) d n); SComplete id] /\
   count (is_start n) (tr p ls) = 1 /\
   count (is_exec n) (tr p ls) = (match d with DInvalid => 0 | _ => 1 end).
 Proof. exact ws_query_one_result_one_complete. Qed.
+
+(** [result_class t d n]: the operation's own result ([CRes n]), unless closing had begun before it was started:
+    [beginClosing] cancels the handler's context, an operation dispatched afterwards is still executed
+    ([Config.Execute] is called) but its resolvers do not run and the result carries errors only ([CErr]); errors
+    only as well for documents that do not validate.  "Closing had begun" = a [VBeginClose] precedes the start in the
+    trace ([begun_before]), and the trace has one exactly when the dispatcher's once-guard has fired: *)
+Theorem C08_ws_begun_iff_closing : forall (p : proto) ls,
+  existsb is_begin (tr p ls) = true <-> WsModel.closing (fin p ls) <> None.
+Proof. exact ws_begun_iff_closing. Qed.
 
 (** ** D. subscriptions *)
 (** a subscription whose source was started owns its events 1..k in order, then exactly one
@@ -277,6 +286,19 @@ Theorem C08_sys_refines : forall cap p y, yreach cap p y ->
   (y_lost y = [] \/ writer_done (y_c y) = true).
 Proof. exact sys_refines. Qed.
 
+(** (J2') global order.  All connection-level frames have one owner (none) and one sender (the read loop): in the
+    real-time order of ALL sendMessage calls of the joined system ([y_calls]: read loop and subscription goroutines
+    together) the connection-level frames (ack, ka, connection_error, pong), followed by what the read loop still has
+    in hand, are exactly the connection-level frames of stage 1's trace, in its order; and R1 holds of that real-time
+    order: before the first ack nothing but a connection error (graphql-transport-ws: or a pong) is handed to
+    sendMessage by anybody.  (The close frame is written by the write loop after it has drained the queue: stage 2,
+    [WDrain] -> [WWait]; the content of queue and socket is not in the joined system.) *)
+Theorem C08_sys_conn_frames_in_order : forall cap p y, yreach cap p y ->
+  osends_to None (y_calls y) ++ osends_to None (y_rprog y ++ y_lost y) = sent_to None (tr p (y_hist y)).
+Proof. exact sys_conn_frames_in_order. Qed.
+Theorem C08_sys_ack_first : forall cap p y, yreach cap p y -> chk_ack_first p (fr (y_calls y)) = true.
+Proof. exact sys_ack_first. Qed.
+
 (** (J3) the joined system can take every internal step stage 2 can (the bookkeeping never blocks), so
     (I) carries over: from every reachable state on its way out every run of internal steps is
     bounded and can only stop where every actor has terminated, HandleClose has run, the connection is
@@ -295,6 +317,7 @@ Print Assumptions C08_ws_start_is_started.
 Print Assumptions C08_ws_initialised_after_accepted_init.
 Print Assumptions C08_ws_closed_iff.
 Print Assumptions C08_ws_query_one_result_one_complete.
+Print Assumptions C08_ws_begun_iff_closing.
 Print Assumptions C08_ws_sub_complete_once_then_silent.
 Print Assumptions C08_ws_no_start_dropped.
 Print Assumptions C08_ws_ping_pong.
@@ -319,4 +342,6 @@ Print Assumptions C08_ws_quiescent_refuted_before_fix_reader.
 Print Assumptions C08_ws_quiescent_refuted_before_fix_goroutine.
 Print Assumptions C08_sys_runs_are_stage2_runs.
 Print Assumptions C08_sys_refines.
+Print Assumptions C08_sys_conn_frames_in_order.
+Print Assumptions C08_sys_ack_first.
 Print Assumptions C08_sys_quiescent.
